@@ -30,7 +30,7 @@ type c06Scalar struct {
 	Num  string // ground truth for numbers: exact decimal (ints) or float64 shortest form
 }
 
-func c06Strings() []string {
+func c06Strings(thorough bool) []string {
 	cps := []rune{'"', '\\', '/', 0x01, 0x07, 0x08, 0x09, 0x0a, 0x0c, 0x0d, 0x1b, 0x1f, 0x7f, 0x85, 0xa0, 0x2028, 0x2029, '<', '>', '&', ' ', '#', ':', '-', '0', '1', 'e', 'x', 'n', 'u', 'l', 't', 'r', 'é', 0xfffd, 0x1f600, '\'', '%', '@', '`', '!', '|', '*', '?', '[', '{', ',', '~', '.', '=', '$'}
 	var out []string
 	out = append(out, "")
@@ -38,6 +38,11 @@ func c06Strings() []string {
 		out = append(out, string(a))
 		for _, b := range cps {
 			out = append(out, string(a)+string(b))
+			if thorough {
+				for _, d := range cps {
+					out = append(out, string(a)+string(b)+string(d))
+				}
+			}
 		}
 	}
 	out = append(out, "null", "Null", "~", "true", "false", "yes", "no", "on", "off", "y", "n", "1", "-1", "0x1f", "0o17", "1_000", "1.5", "1e3", ".inf", "-.inf", ".nan", "1:30", "2021-01-01", "2021-01-01T00:00:00Z",
@@ -76,9 +81,9 @@ func yamlDQ(s string) string {
 	return sb.String()
 }
 
-func c06Scalars() []c06Scalar {
+func c06Scalars(thorough bool) []c06Scalar {
 	var out []c06Scalar
-	for _, s := range c06Strings() {
+	for _, s := range c06Strings(thorough) {
 		b, _ := stdjson.Marshal(s)
 		out = append(out, c06Scalar{YAML: yamlDQ(s), JSON: string(b), Kind: "str", Str: s})
 	}
@@ -349,7 +354,7 @@ func c06Keys(out string) []string {
 }
 
 func c06Run(c *fw.Ctx) error {
-	scalars := c06Scalars()
+	scalars := c06Scalars(c.Thorough())
 	places := []string{"root", "elem", "value", "key", "nested"}
 	type cfg struct {
 		indent int
@@ -359,7 +364,7 @@ func c06Run(c *fw.Ctx) error {
 	if !c.Thorough() {
 		cfgs = []cfg{{0, false}, {2, true}}
 	}
-	c.Res.Bound = fmt.Sprintf("%d scalars (all strings of length <= 2 over 51 code points incl. every control/escape class, look-alike strings, strings ending in line feeds, integers up to 64 bit and beyond, floats incl. exponents/inf/nan) x 5 positions x %d (indent, unwrap) settings x 2 directions", len(scalars), len(cfgs))
+	c.Res.Bound = fmt.Sprintf("%d scalars (all strings of length <= %d over 51 code points incl. every control/escape class, look-alike strings, strings ending in line feeds, integers up to 64 bit and beyond, floats incl. exponents/inf/nan) x 5 positions x %d (indent, unwrap) settings x 2 directions", len(scalars), map[bool]int{false: 2, true: 3}[c.Thorough()], len(cfgs))
 	var idx int64
 	for si, sc := range scalars {
 		for _, pl := range places {
